@@ -2,3 +2,5 @@ import CfbVerif.Props.C06
 import CfbVerif.Props.C09
 import CfbVerif.Drv.Handle
 import CfbVerif.Drv.Names
+import CfbVerif.Props.C17
+import CfbVerif.Drv.Time
